@@ -63,11 +63,14 @@ type Observer struct {
 	cidKnown  [2]bool
 	Packets   [2][]*Packet // all decoded packets per direction in send order
 	Undecryptable int
+	// InitialPNHint seeds the "largest packet number seen" of the client's Initial space (-1 = none). A spec may
+	// start at a packet number no stateless receiver could decode; the observer, which knows the spec, still can.
+	InitialPNHint int64
 }
 
 // NewObserver creates an observer and subscribes it to the key logs.
 func NewObserver(keylogs ...*KeyLog) *Observer {
-	o := &Observer{seenDCID: map[string]bool{}, seenSecret: map[string]bool{}}
+	o := &Observer{seenDCID: map[string]bool{}, seenSecret: map[string]bool{}, InitialPNHint: -1}
 	for _, kl := range keylogs {
 		kl.mu.Lock()
 		for _, l := range kl.lines {
@@ -228,7 +231,7 @@ func (o *Observer) decodeLong(dir Dir, h refwire.LongHeader, pkt []byte) *Packet
 			if !o.seenDCID[id] && (h.Version == refcrypto.V1 || h.Version == refcrypto.V2) {
 				o.seenDCID[id] = true
 				ck, sk := refcrypto.InitialKeys(h.Version, h.DCID)
-				o.initial[C2S] = append(o.initial[C2S], &keyset{k: ck, largest: -1, owner: "initial:" + id})
+				o.initial[C2S] = append(o.initial[C2S], &keyset{k: ck, largest: o.InitialPNHint, owner: "initial:" + id})
 				o.initial[S2C] = append(o.initial[S2C], &keyset{k: sk, largest: -1, owner: "initial:" + id})
 			}
 		}
